@@ -14,6 +14,7 @@ Inductive stage :=
 | SEv        (* yield add_event_listener('STATUS_CLIENT', ...)   (SETEVENTS outstanding) *)
 | SOwn       (* yield queue_command('TAKEOWNERSHIP') *)
 | SReset     (* yield queue_command('RESETCONF __OwningControllerProcess') *)
+| SAttach    (* yield self.config.attach_protocol(proto) *)
 | SIdle.     (* returned or failed: nothing outstanding *)
 
 Record conn := { k_stage : stage;
@@ -26,6 +27,13 @@ Inductive tstate :=
 | TFired      (* it has run; _timeout_delayed_call still refers to it *)
 | TCleared.   (* cancelled at 100% and set to None *)
 
+(* the TorConfig handed to launch(): config.protocol, and the attach_protocol() Deferred *)
+Inductive astate :=
+| ANone                               (* config.protocol is None *)
+| ARun (left : N) (who : option N)    (* attach in flight, `left` more answers needed; who waits on its Deferred:
+                                         Some c = _tor_connected of connection c, None = launch() itself *)
+| ADone.                              (* config.protocol is set, nothing in flight (attached, or the attach failed) *)
+
 Record mst := { attempted : bool;            (* attempted_connect *)
                 collected : bytes;           (* collected_stdout *)
                 npend : nat;                 (* Deferreds returned by connection_creator, not yet fired *)
@@ -35,12 +43,13 @@ Record mst := { attempted : bool;            (* attempted_connect *)
                 waiters : list N;            (* _connected_listeners, in order *)
                 did_timeout : bool;
                 exited : bool;               (* the fake transport's view: the process is gone *)
-                gone : bool }.               (* the data directory has been deleted *)
+                gone : bool;                 (* the data directory has been deleted *)
+                catt : astate }.
 
 Definition m0 (c : cfg) : mst :=
   {| attempted := false; collected := []; npend := 0; conns := [];
      timer := if c_timeout c then TPending else TNone;
-     notified := None; waiters := [0]; did_timeout := false; exited := false; gone := false |}.
+     notified := None; waiters := [0]; did_timeout := false; exited := false; gone := false; catt := ANone |}.
 
 Definition w_RESETCONF : bytes :=   (* RESETCONF __OwningControllerProcess *)
   str [82;69;83;69;84;67;79;78;70;32;95;95;79;119;110;105;110;103;67;111;110;116;114;111;108;108;101;114;80;114;111;99;101;115;115].
@@ -49,13 +58,13 @@ Definition w_SETEVENTS_SC : bytes :=   (* SETEVENTS STATUS_CLIENT *)
 
 Definition set_conns (s : mst) cs :=
   {| attempted := attempted s; collected := collected s; npend := npend s; conns := cs; timer := timer s;
-     notified := notified s; waiters := waiters s; did_timeout := did_timeout s; exited := exited s; gone := gone s |}.
+     notified := notified s; waiters := waiters s; did_timeout := did_timeout s; exited := exited s; gone := gone s; catt := catt s |}.
 Definition set_attempted (s : mst) b :=
   {| attempted := b; collected := collected s; npend := npend s; conns := conns s; timer := timer s;
-     notified := notified s; waiters := waiters s; did_timeout := did_timeout s; exited := exited s; gone := gone s |}.
+     notified := notified s; waiters := waiters s; did_timeout := did_timeout s; exited := exited s; gone := gone s; catt := catt s |}.
 Definition set_timer (s : mst) t :=
   {| attempted := attempted s; collected := collected s; npend := npend s; conns := conns s; timer := t;
-     notified := notified s; waiters := waiters s; did_timeout := did_timeout s; exited := exited s; gone := gone s |}.
+     notified := notified s; waiters := waiters s; did_timeout := did_timeout s; exited := exited s; gone := gone s; catt := catt s |}.
 
 (* _maybe_notify_connected *)
 Definition notify (s : mst) (r : res) : mst * list obs :=
@@ -63,8 +72,41 @@ Definition notify (s : mst) (r : res) : mst * list obs :=
   | Some _ => (s, [])
   | None =>
       ({| attempted := attempted s; collected := collected s; npend := npend s; conns := conns s; timer := timer s;
-          notified := Some r; waiters := []; did_timeout := did_timeout s; exited := exited s; gone := gone s |},
+          notified := Some r; waiters := []; did_timeout := did_timeout s; exited := exited s; gone := gone s; catt := catt s |},
        map (fun w => EFired w r) (waiters s))
+  end.
+
+Definition set_catt (s : mst) a :=
+  {| attempted := attempted s; collected := collected s; npend := npend s; conns := conns s; timer := timer s;
+     notified := notified s; waiters := waiters s; did_timeout := did_timeout s; exited := exited s; gone := gone s;
+     catt := a |}.
+
+(* self.tor_protocol: the connection _tor_connected ran on last *)
+Definition lastc (s : mst) : option N :=
+  match conns s with [] => None | _ :: l => Some (N.of_nat (length l)) end.
+
+(* launch() resumes when the Deferred of its own when_connected() call fires with success:
+     if config.protocol is None and proto.tor_protocol is not None: yield config.attach_protocol(proto.tor_protocol)
+     return Tor(...)
+   gives the new config state, what is observed, and whether the result is held back *)
+Definition launch_resumes (cf : cfg) (s : mst) : astate * list obs * bool :=
+  match catt s, lastc s with
+  | ANone, Some c => if c_attach cf =? 0 then (ADone, [EAttach c], false)
+                     else (ARun (c_attach cf) None, [EAttach c], true)
+  | a, _ => (a, [], false)
+  end.
+
+(* _maybe_notify_connected(self) at 100%.  launch() made the first when_connected() call, so its
+   continuation runs first *)
+Definition notify_ok (cf : cfg) (s : mst) : mst * list obs :=
+  match notified s with
+  | Some _ => (s, [])
+  | None =>
+      let '(a, pre, held) := if memN 0 (waiters s) then launch_resumes cf s else (catt s, [], false) in
+      ({| attempted := attempted s; collected := collected s; npend := npend s; conns := conns s; timer := timer s;
+          notified := Some ROk; waiters := []; did_timeout := did_timeout s; exited := exited s; gone := gone s;
+          catt := a |},
+       pre ++ map (fun w => EFired w ROk) (if held then drop0 (waiters s) else waiters s))
   end.
 
 Definition getc (s : mst) (c : N) : option conn := nth_error (conns s) (N.to_nat c).
@@ -83,11 +125,11 @@ Definition step (cf : cfg) (s : mst) (o : op) : mst * list obs :=
         if isinfix LISTENER buf then
           ({| attempted := true; collected := []; npend := S (npend s); conns := conns s; timer := timer s;
               notified := notified s; waiters := waiters s; did_timeout := did_timeout s; exited := exited s;
-              gone := gone s |}, [EConnecting])
+              gone := gone s; catt := catt s |}, [EConnecting])
         else
           ({| attempted := false; collected := buf; npend := npend s; conns := conns s; timer := timer s;
               notified := notified s; waiters := waiters s; did_timeout := did_timeout s; exited := exited s;
-              gone := gone s |}, [])
+              gone := gone s; catt := catt s |}, [])
   | OErr _ =>
       if c_killerr cf then (s, [ELoseConn; ERaised 1]) else (s, [])
   | OConnOk =>
@@ -97,7 +139,7 @@ Definition step (cf : cfg) (s : mst) (o : op) : mst * list obs :=
           ({| attempted := attempted s; collected := collected s; npend := n;
               conns := conns s ++ [{| k_stage := SBoot; k_lreg := false; k_evon := false |}];
               timer := timer s; notified := notified s; waiters := waiters s; did_timeout := did_timeout s;
-              exited := exited s; gone := gone s |}, [])
+              exited := exited s; gone := gone s; catt := catt s |}, [])
       end
   | OConnFail =>
       match npend s with
@@ -105,7 +147,7 @@ Definition step (cf : cfg) (s : mst) (o : op) : mst * list obs :=
       | S n =>
           ({| attempted := false; collected := collected s; npend := n; conns := conns s; timer := timer s;
               notified := notified s; waiters := waiters s; did_timeout := did_timeout s; exited := exited s;
-              gone := gone s |}, [])
+              gone := gone s; catt := catt s |}, [])
       end
   | OBoot c ok =>
       match getc s c with
@@ -129,7 +171,16 @@ Definition step (cf : cfg) (s : mst) (o : op) : mst * list obs :=
               if ok then (putc s c {| k_stage := SReset; k_lreg := k_lreg k; k_evon := k_evon k |}, [ESent c w_RESETCONF])
               else (coroutine_failed s c k, [])
           | SReset =>
-              if ok then (putc s c {| k_stage := SIdle; k_lreg := k_lreg k; k_evon := k_evon k |}, [])
+              if ok then
+                match catt s with
+                | ANone =>      (* self.config.protocol is None *)
+                    if c_attach cf =? 0
+                    then (set_catt (putc s c {| k_stage := SIdle; k_lreg := k_lreg k; k_evon := k_evon k |}) ADone,
+                          [EAttach c])
+                    else (set_catt (putc s c {| k_stage := SAttach; k_lreg := k_lreg k; k_evon := k_evon k |})
+                                   (ARun (c_attach cf) (Some c)), [EAttach c])
+                | _ => (putc s c {| k_stage := SIdle; k_lreg := k_lreg k; k_evon := k_evon k |}, [])
+                end
               else (coroutine_failed s c k, [])
           | _ => (s, [])
           end
@@ -142,20 +193,42 @@ Definition step (cf : cfg) (s : mst) (o : op) : mst * list obs :=
             if p =? 100 then
               match timer s with
               | TFired => (s, [EProgress p; ERaised 2])      (* cancel() of a called DelayedCall *)
-              | TPending => let '(s1, e1) := notify (set_timer s TCleared) ROk in (s1, EProgress p :: e1)
-              | _ => let '(s1, e1) := notify s ROk in (s1, EProgress p :: e1)
+              | TPending => let '(s1, e1) := notify_ok cf (set_timer s TCleared) in (s1, EProgress p :: e1)
+              | _ => let '(s1, e1) := notify_ok cf s in (s1, EProgress p :: e1)
               end
             else (s, [EProgress p])
           else (s, [])
       | None => (s, [])
       end
   | OStatus _ => (s, [])
+  | OAttach ok =>
+      match catt s with
+      | ARun n who =>
+          if ok && negb (n =? 1) then (set_catt s (ARun (N.pred n) who), [])
+          else
+            (* the attach Deferred fires: callback if ok, errback otherwise *)
+            match who with
+            | None => (set_catt s ADone, [EFired 0 (if ok then ROk else RFail 9)])
+            | Some c =>
+                match getc s c with
+                | Some k =>
+                    match k_stage k with
+                    | SAttach =>
+                        if ok then (set_catt (putc s c {| k_stage := SIdle; k_lreg := k_lreg k; k_evon := k_evon k |}) ADone, [])
+                        else (set_catt (coroutine_failed s c k) ADone, [])
+                    | _ => (set_catt s ADone, [])
+                    end
+                | None => (set_catt s ADone, [])
+                end
+            end
+      | _ => (s, [])
+      end
   | OTimeout =>
       match timer s with
       | TPending =>
           let s1 := {| attempted := attempted s; collected := collected s; npend := npend s; conns := conns s;
                        timer := TFired; notified := notified s; waiters := waiters s; did_timeout := true;
-                       exited := exited s; gone := gone s |} in
+                       exited := exited s; gone := gone s; catt := catt s |} in
           let e0 := if exited s then [ELoseConn] else [ESignal w_TERM] in
           let '(s2, e2) := notify s1 (RFail 1) in (s2, e0 ++ e2)
       | _ => (s, [])
@@ -163,7 +236,7 @@ Definition step (cf : cfg) (s : mst) (o : op) : mst * list obs :=
   | OExit x =>
       let s1 := {| attempted := attempted s; collected := collected s; npend := npend s; conns := conns s;
                    timer := timer s; notified := notified s; waiters := waiters s; did_timeout := did_timeout s;
-                   exited := true; gone := gone s || negb (c_userdir cf) |} in
+                   exited := true; gone := gone s || negb (c_userdir cf); catt := catt s |} in
       let k := match x with XCode _ => 2 | XSignal _ => if did_timeout s then 4 else 3 end in
       notify s1 (RFail k)
   | OWhen w =>
@@ -172,12 +245,12 @@ Definition step (cf : cfg) (s : mst) (o : op) : mst * list obs :=
       | None =>
           ({| attempted := attempted s; collected := collected s; npend := npend s; conns := conns s;
               timer := timer s; notified := None; waiters := waiters s ++ [w]; did_timeout := did_timeout s;
-              exited := exited s; gone := gone s |}, [])
+              exited := exited s; gone := gone s; catt := catt s |}, [])
       end
   | OShutdown =>
       ({| attempted := attempted s; collected := collected s; npend := npend s; conns := conns s;
           timer := timer s; notified := notified s; waiters := waiters s; did_timeout := did_timeout s;
-          exited := exited s; gone := gone s || negb (c_userdir cf) |}, [])
+          exited := exited s; gone := gone s || negb (c_userdir cf); catt := catt s |}, [])
   end.
 
 (* the harness looks at the directory after every operation *)
